@@ -5,13 +5,18 @@
    every descendant within the fuel, which is the number of objects + 1);
    eRoot is the end of the eContainer chain and eResource is the root's
    resource, for every acyclic containment.
+   Metamodel side (Model/MetaViews.v): eAllSuperTypes is exactly the set of
+   transitive supertypes, each once, in any class graph (diamonds included);
+   eAllStructuralFeatures is exactly own plus inherited declarations, each
+   once; eAllReferences/eAllAttributes partition it; findEStructuralFeature
+   returns a declaration of that name among them, or None when there is none.
    PARTIAL: "exactly once" for eAllContents needs the single-owner invariant
-   of C02 (not yet a theorem); the metamodel-side views (eAllStructuralFeatures,
-   eAllSuperTypes, ...) and the interchangeability of access paths are decided
-   by the correspondence (access path randomised per call) and by the oracle
-   of harness/props/c19.py. *)
+   of C02 (not yet a theorem); the interchangeability of access paths is
+   decided by the correspondence (access path randomised per call); that the
+   implementation's views follow EDITS of the class graph (no stale cache) is
+   decided by the edit-history correspondence of harness/props/c19.py. *)
 From Coq Require Import ZArith List Bool Arith.
-From PyecoreV Require Import Lib.PyBase Lib.PyList Model.Kernel Proofs.C19Proofs.
+From PyecoreV Require Import Lib.PyBase Lib.PyList Model.Kernel Model.MetaViews Proofs.C19Proofs.
 Import ListNotations.
 
 Theorem C19_econtents_are_the_containment_slots :
@@ -47,6 +52,56 @@ Theorem C19_eallcontents_every_descendant_partial :
   forall m s n o c fuel, descends_in m s n o c -> n <= fuel -> In c (eallcontents fuel m s o).
 Proof. exact eallcontents_complete. Qed.
 Print Assumptions C19_eallcontents_every_descendant_partial.
+
+Theorem C19_all_supertypes_are_the_ancestors :
+  forall g fuel c d, In d (all_supers fuel g c) -> exists n, ancestor g n c d.
+Proof. intros g fuel c d H. apply all_supers_spec in H. eapply supers_gen_sound; eauto. Qed.
+Print Assumptions C19_all_supertypes_are_the_ancestors.
+
+Theorem C19_every_ancestor_is_a_supertype :
+  forall g n c d fuel, ancestor g n c d -> n <= fuel -> In d (all_supers fuel g c).
+Proof. intros g n c d fuel H Hn. apply all_supers_spec. eapply supers_gen_complete; eauto. Qed.
+Print Assumptions C19_every_ancestor_is_a_supertype.
+
+Theorem C19_all_supertypes_once : forall g fuel c, NoDup (all_supers fuel g c).
+Proof. exact all_supers_NoDup. Qed.
+Print Assumptions C19_all_supertypes_once.
+
+Theorem C19_all_features_are_own_or_inherited :
+  forall g fuel c f, In f (all_feats fuel g c) ->
+    In f (own g c) \/ exists n d, ancestor g n c d /\ In f (own g d).
+Proof. intros g fuel c f H. apply all_feats_spec in H. eapply feats_gen_sound; eauto. Qed.
+Print Assumptions C19_all_features_are_own_or_inherited.
+
+Theorem C19_own_and_inherited_features_are_listed :
+  forall g n c d f fuel,
+    (In f (own g c) -> In f (all_feats (S fuel) g c)) /\
+    (ancestor g n c d -> In f (own g d) -> n < fuel -> In f (all_feats fuel g c)).
+Proof.
+  intros g n c d f fuel. split.
+  - intros H. apply all_feats_spec. apply feats_gen_complete_own. exact H.
+  - intros Ha Ho Hn. apply all_feats_spec. eapply feats_gen_complete_inherited; eauto.
+Qed.
+Print Assumptions C19_own_and_inherited_features_are_listed.
+
+Theorem C19_all_features_once : forall g fuel c, NoDup (all_feats fuel g c).
+Proof. exact all_feats_NoDup. Qed.
+Print Assumptions C19_all_features_once.
+
+Theorem C19_references_and_attributes_partition :
+  forall g fuel c f, In f (all_feats fuel g c) <-> (In f (all_refs fuel g c) \/ In f (all_attrs fuel g c)).
+Proof. exact all_refs_attrs_partition. Qed.
+Print Assumptions C19_references_and_attributes_partition.
+
+Theorem C19_find_feature_finds_a_declaration :
+  forall g fuel c nm f, find_feat fuel g c nm = Some f -> In f (feats_gen fuel g c) /\ fname g f = nm.
+Proof. exact find_feat_spec. Qed.
+Print Assumptions C19_find_feature_finds_a_declaration.
+
+Theorem C19_find_feature_none_means_absent :
+  forall g fuel c nm, find_feat fuel g c nm = None -> forall f, In f (feats_gen fuel g c) -> fname g f <> nm.
+Proof. exact find_feat_none. Qed.
+Print Assumptions C19_find_feature_none_means_absent.
 
 Definition ex_mm : mm :=
   {| feats := [ {| f_owner := 0; f_isref := true; f_many := true; f_unique := true; f_cont := true;
